@@ -397,7 +397,7 @@ func (c14Driver) Gen(seed uint64, tier string) *simrt.Spec {
 		var cl C14Caller
 		no := 1 + r.Intn(6)
 		for k := 0; k < no; k++ {
-			op := C14Op{Kind: []string{"marshal", "unmarshal", "marshal_json", "unmarshal_json", "reuse_buf", "reuse_buf", "fill_buf", "unmarshal_buf", "unmarshal_buf"}[r.Intn(9)], Mask: r.Intn(nm), Buf: r.Intn(2)}
+			op := C14Op{Kind: []string{"marshal", "unmarshal", "marshal_json", "unmarshal_json", "reuse_buf", "reuse_buf", "fill_buf", "unmarshal_buf", "unmarshal_buf", "build", "build"}[r.Intn(11)], Mask: r.Intn(nm), Buf: r.Intn(2)}
 			cl.Ops = append(cl.Ops, op)
 		}
 		w.Callers = append(w.Callers, cl)
@@ -701,6 +701,15 @@ func (c14Driver) Run(spec *simrt.Spec, agg *Agg, keep bool) *Outcome {
 								fail("cache-unmarshal-error", "cache-unmarshal-error", "%s: %v", who, err)
 							} else if a := c14Ans(fm); a != want.ans {
 								fail("cache-wrong-mask", "cache-wrong-mask:reused-buffer", "%s decoded the document of mask %d from a buffer the caller had reused, and got a mask that answers differently from the mask of that document: %s", who, k, firstDiff(want.ans, a))
+							}
+						case "build":
+							// callers build masks at the same time, each from the descriptor of its own universe
+							m := work.Masks[op.Mask]
+							fm, err := fieldmask.Options{BlackListMode: m.Black}.NewFieldMask(c14DescriptorOf(m.U), m.Paths...)
+							if err != nil {
+								fail("concurrent-build-error", "concurrent-build-error", "%s: NewFieldMask (universe %d) fails for paths %q that built the same mask before the callers started: %v", who, m.U, m.Paths, err)
+							} else if j, err := fm.MarshalJSON(); err != nil || !bytes.Equal(j, rf.json) {
+								fail("concurrent-build-differs", "concurrent-build-differs", "%s: a mask built from %q (universe %d) while other callers run marshals to %s, the mask built from the same paths before marshals to %s (err=%v)", who, m.Paths, m.U, clip(string(j)), clip(string(rf.json)), err)
 							}
 						case "reuse_buf":
 							// a caller-owned buffer reused for successive documents
